@@ -17,7 +17,8 @@ Sub-checks
   exh_sort/rnd_sort/sort_kinds   sort_by_time / stable_sort / stable_argsort == Python's stable sorted().
   fixed   hand-computed examples (anchor for the reference model).
 
-Known findings: F1730 (float64 sort key without channel field), F1731 (fallback sort path not stable).
+Known findings: F1730 (float64 sort key without channel field), F1731 (fallback sort path not stable),
+F1732 (int64 overflow of the sort key at the guard boundary).
 """
 import functools
 import warnings
@@ -600,6 +601,13 @@ def check_sort_by_time(x, times, chans, ctx):
         if chans is not None:
             cmin = min(chans)
             sh = [c - min(cmin, 0) for c in chans]
+            m = max(sh) + 1
+            keys = [(t - tmin) * m + c for t, c in zip(times, sh)]
+            if max(keys) > 2 ** 63 - 1:
+                wrapped = [((k + 2 ** 63) % 2 ** 64) - 2 ** 63 for k in keys]  # int64 wrap-around
+                alt = sorted(range(n), key=lambda i: wrapped[i])
+                if same_bytes(np.asarray(got), x[alt]):
+                    tags += "[single-sort-key-overflows-int64][output==stable-sort-by-wrapped-key]"
             if (tmax - tmin) > KEYMAX / (max(sh) + 1):
                 names = [nm for nm in x.dtype.names if nm not in ("time", "channel")]
                 alt = sorted(range(n), key=lambda i: (times[i], chans[i]) + tuple(int(x[nm][i]) for nm in names))
@@ -626,6 +634,16 @@ def _sig_f1731(sub, desc, bucket, message):
     return (sub == "rnd_sort" and bucket == "clause:sort.sort_by_time_order" and desc.get("chan") is not None
             and desc.get("wide") is not None
             and "[time-span-too-large-for-single-key][output==sorted-by-all-fields-not-stable]" in message)
+
+
+@signature("F1732_sort_by_time_key_overflow_at_guard_boundary")
+def _sig_f1732(sub, desc, bucket, message):
+    """sort_by_time decides between the single-integer-key path and the fallback with a float64 comparison
+    ((2**63 - 11) / (max channel + 1)); spans just above the exact limit are rounded away, take the fast path and
+    the key (t - tmin) * (max channel + 1) + channel overflows int64."""
+    return (sub == "rnd_sort" and bucket == "clause:sort.sort_by_time_order" and desc.get("chan") is not None
+            and desc.get("wide") is not None
+            and "[single-sort-key-overflows-int64][output==stable-sort-by-wrapped-key]" in message)
 
 
 def enum_sort(tier, seed):
